@@ -332,7 +332,14 @@ def _popcount(z, w):
 
 def _w_bits(res, p):
     """_get_next_number_with_same_hamming_weight executed on a symbolic bit-vector."""
-    from orquestra.quantum.wavefunction import _get_next_number_with_same_hamming_weight as nxt
+    try:
+        from orquestra.quantum.wavefunction import _get_next_number_with_same_hamming_weight as nxt
+    except ImportError:
+        # a private kernel: if the library no longer has it there is nothing to execute symbolically (the Dicke clause itself is
+        # covered by the enumeration instances)
+        res.ob(1)
+        res.inconc("the private bit-trick kernel _get_next_number_with_same_hamming_weight no longer exists: nothing to execute, no verdict")
+        return
     import time
 
     res.nontrivial()
@@ -525,7 +532,7 @@ def run(ctx):
 
 
 def replay(data):
-    from orquestra.quantum.wavefunction import Wavefunction, flip_amplitudes, _get_next_number_with_same_hamming_weight as nxt
+    from orquestra.quantum.wavefunction import Wavefunction, flip_amplitudes
 
     inp = data["inputs"]
     clause = inp["clause"]
@@ -550,6 +557,8 @@ def replay(data):
                     return bool(bad), bad or "ok"
             return False, "case not found"
         if clause in ("next-has-same-weight", "next-is-larger", "nothing-skipped"):
+            from orquestra.quantum.wavefunction import _get_next_number_with_same_hamming_weight as nxt
+
             v = int(vals["val"])
             r = nxt(v)
             pc = bin(v).count("1")
